@@ -83,8 +83,6 @@ def roundtrip(ctx, job):
         def wit(m, extra=None):
             d = {'strategy': strategy, 'write': wname, 'commands': [[show(el, m) for el in c] for c in cmds]}
             d.update(extra(m) if extra else {}); return d
-        rp = lambda m: {'kind': 'rust-test', 'filter': 'verif_replay_compression', 'spec': dict(spec_of(strategy, cmds, m), check=check[0])}
-        check = [None]
         # (1) what arrived at the backend for this request
         arrived = [x for x in mgrA.sent[(1 if old is not None else 0):]]
         name = bytes(orig[0]).upper()
@@ -123,7 +121,6 @@ def roundtrip(ctx, job):
         nx_blocked = old is not None and (name == b'SETNX' or name == b'MSETNX' or (name == b'SET' and any(bytes(x).upper() == b'NX' for x in orig[3:] if as_bytes(x) is not None)))
         if name == b'GETSET':
             exp_ok = (wr[0] == 'ok') and (tree_eq_bulk(wr[1], old) if old is not None else wr[1] == ('Bulk', None))
-            check[0] = {'idx': len(cmds) - 1, 'bulk': None}
             items.append(('getset-returns-old-value', 'C20/getset-old-value-altered', exp_ok, lambda m: wit(m, lambda m: {'reply': show_tree(wr, m)}),))
         elif name in (b'SETNX', b'MSETNX'):
             items.append(('integer-reply-unaltered', 'C20/non-string-reply-altered/' + wname, wr == ('ok', ('Integer', L(b'0' if nx_blocked else b'1'))), lambda m: wit(m, lambda m: {'reply': show_tree(wr, m)})))
@@ -166,7 +163,6 @@ def roundtrip(ctx, job):
                 rr2 = reply_resp(e, handle(e, hA, cmds[-1]))
                 items.append(('get-returns-written-value', 'C20/value-not-byte-identical/GET-after-GETSET', rr2[0] == 'ok' and tree_eq_bulk(rr2[1], nv),
                               lambda m, rr2=rr2: dict(wit(m), reply=show_tree(rr2, m))))
-        check[0] = {'kind': 'roundtrip', 'expect': None}
         def rp(m):
             sp = spec_of(strategy, cmds, m)
             sp['expect_get'] = {k.decode(): ([concretize(b, m) for b in v]) for k, v in expect.items()}
@@ -231,18 +227,17 @@ def passthrough(ctx, job):
         raw = symval('r', job.get('n', 4))
         mk = {'nil': lambda e: nil_bulk(e), 'error': lambda e: error(e, b'WRONGTYPE Operation against a key'), 'integer': lambda e: integer(e, 7),
               'simple': lambda e: simple(e, b'OK'), 'nilarray': lambda e: Enum('Resp', e.src.variant_index('Resp', 'Arr'), [Enum('Array', e.src.variant_index('Array', 'Nil'))]),
-              'raw': lambda e: bulk(e, raw), 'mixed': lambda e: array(e, [nil_bulk(e), integer(e, 3), error(e, b'ERR x')]),
-              'rawarray': lambda e: array(e, [bulk(e, raw), nil_bulk(e)])}[rkind]
+              'raw': lambda e: bulk(e, raw), 'mixed': lambda e: array(e, [nil_bulk(e), integer(e, 3), error(e, b'ERR x')])}[rkind]
         redis = ForcedRedis([mk])
         h, mgr, _ = make_handler(e, strategy, redis)
-        req = [L(cmd.encode()), L(K1)] + ([L(K2)] if cmd == 'MGET' and rkind == 'rawarray' else []) + ([symval('w', 1)] if cmd == 'GETSET' else [])
+        req = [L(cmd.encode()), L(K1)] + ([L(K2)] if cmd == 'MGET' else []) + ([symval('w', 1)] if cmd == 'GETSET' else [])
         # MGET is split into GET sub-commands: give each sub-command its own forced reply
         if cmd == 'MGET': redis.replies = [mk] * (len(req) - 1)
         rr = reply_resp(e, handle(e, h, req))
         exp_tree = resp_tree(e, mk(e))
         def wit(m): return {'strategy': strategy, 'command': [show(el, m) for el in req], 'backend_reply': rkind, 'client_reply': show_tree(rr, m), 'raw': show(raw, m)}
         items = []
-        if rkind in ('raw', 'rawarray') and strategy != 'Disabled':
+        if rkind == 'raw' and strategy != 'Disabled':
             # stored bytes that are a frame decode to their payload, anything else must not come out as different bytes
             def bulk_ok(t):
                 if t == ('Bulk', None) or t[0] == 'Error': return True
@@ -250,7 +245,7 @@ def passthrough(ctx, job):
                 isf, payload = decoded(raw)
                 return zor([zand([isf, bytes_eq(t[1], payload)]), bytes_eq(t[1], raw)])
             if cmd == 'MGET':
-                ok = rr[0] == 'ok' and (rr[1][0] == 'Error' or (rr[1][0] == 'Arr' and rr[1][1] is not None and bulk_ok(rr[1][1][0])))
+                ok = rr[0] == 'ok' and (rr[1][0] == 'Error' or (rr[1][0] == 'Arr' and rr[1][1] is not None and len(rr[1][1]) == 2 and zand([bulk_ok(t) for t in rr[1][1]])))
             else:
                 ok = rr[0] == 'ok' and bulk_ok(rr[1])
             items.append(('undecodable-value-never-other-bytes', 'C20/undecodable-value-answered-with-other-bytes/' + cmd, ok, wit))
@@ -258,7 +253,7 @@ def passthrough(ctx, job):
             if cmd == 'MGET':
                 # the client sees an array of the sub-replies, or the first error among them
                 first_err = exp_tree[0] == 'Error'
-                ok = rr[0] == 'ok' and ((first_err and rr[1] == exp_tree) or (not first_err and rr[1][0] == 'Arr' and rr[1][1] is not None and tree_eq(rr[1][1][0], exp_tree)))
+                ok = rr[0] == 'ok' and ((first_err and rr[1] == exp_tree) or (not first_err and rr[1][0] == 'Arr' and rr[1][1] is not None and len(rr[1][1]) == 2 and zand([tree_eq(t, exp_tree) for t in rr[1][1]])))
             else:
                 ok = rr[0] == 'ok' and tree_eq(rr[1], exp_tree)
             items.append(('non-string-reply-unaltered', 'C20/non-string-reply-altered/%s/%s' % (cmd, rkind), ok, wit))
@@ -332,7 +327,7 @@ def run(ctx):
         for c in OBSERVERS:
             jobs.append({'kind': 'restricted', 'strategy': strategy, 'cmd': c})
         for cmd in ('GET', 'GETSET', 'MGET'):
-            for rk in ('nil', 'error', 'integer', 'simple', 'nilarray', 'mixed', 'raw') + (('rawarray',) if cmd == 'MGET' else ()):
+            for rk in ('nil', 'error', 'integer', 'simple', 'nilarray', 'mixed', 'raw'):
                 jobs.append({'kind': 'pass', 'strategy': strategy, 'cmd': cmd, 'reply': rk, 'n': 4 if quick else 5})
         if strategy != 'AllowAll' or not quick:
             for gi, (name, req, ns) in enumerate(GUARDS):
